@@ -292,6 +292,65 @@ func checkC07(w *World, c *Check, tier string) {
 
 	// ---- C07.family ----
 	checkFamilies(w, c, v, names, regType, regAV)
+	checkViewForms(w, c)
+}
+
+// checkViewForms (C07.forms): the typed-view helpers (func(Item) (*T, error) for a vocabulary struct T) accept a vocabulary struct in its value form exactly when they accept it in its pointer form. The encoders
+// pass values (receivers are value receivers), the decoders and the registry pass pointers: a helper that lost one form
+// of one type refuses that type on one side of a codec only — the gob encoder then writes a page without id, type or
+// items while JSON and decoding still work.
+func checkViewForms(w *World, c *Check) {
+	item := w.itemIface()
+	n := 0
+	for _, f := range w.Funcs {
+		if f.Parent() != nil || f.Signature.Recv() != nil || len(f.Params) != 1 || f.Signature.Results().Len() != 2 || f.Synthetic != "" || f.TypeParams().Len() > 0 {
+			continue
+		}
+		if pi, ok := types.Unalias(f.Params[0].Type()).Underlying().(*types.Interface); !ok || item == nil || !types.Identical(pi, item) && !types.Implements(f.Params[0].Type(), item) {
+			continue
+		}
+		rp, ok := types.Unalias(f.Signature.Results().At(0).Type()).(*types.Pointer)
+		if !ok || !isErrorType(f.Signature.Results().At(1).Type()) {
+			continue
+		}
+		rn := namedOf(rp.Elem())
+		if rn == nil || rn.Obj().Pkg() != w.Types {
+			continue
+		}
+		if _, isStruct := rn.Underlying().(*types.Struct); !isStruct {
+			continue // list views (ToItemCollection, ToIRIs) hand out a pointer into the value and cannot serve copies
+		}
+		listed := map[string]types.Type{}
+		for _, b := range f.Blocks {
+			for _, in := range b.Instrs {
+				if ta, ok := in.(*ssa.TypeAssert); ok {
+					listed[types.TypeString(ta.AssertedType, func(p *types.Package) string { return "" })] = ta.AssertedType
+				}
+			}
+		}
+		if len(listed) < 2 {
+			continue
+		}
+		var miss []string
+		for name, t := range listed {
+			if p, isPtr := types.Unalias(t).(*types.Pointer); isPtr {
+				if _, isStruct := p.Elem().Underlying().(*types.Struct); isStruct && listed[name[1:]] == nil {
+					miss = append(miss, name[1:])
+				}
+			} else if _, isStruct := t.Underlying().(*types.Struct); isStruct && listed["*"+name] == nil {
+				miss = append(miss, "*"+name)
+			}
+		}
+		sort.Strings(miss)
+		n++
+		if len(miss) > 0 {
+			c.bad("C07.forms", funcName(f), w.FuncPos(f), fmt.Sprintf("%s accepts one form of %v but not the other: encoders hand values, decoders and the registry hand pointers, so the type is refused on one side of a codec only (its properties are then silently not written or not read)", funcName(f), miss))
+		} else {
+			c.ok("C07.forms", funcName(f), w.FuncPos(f), fmt.Sprintf("%d types accepted, value and pointer forms together", len(listed)))
+		}
+	}
+	c.stat("typed_view_helpers", n)
+	c.floor("C07.forms", 10)
 }
 
 func registryResult(res AV) (*types.Named, AV) {
